@@ -4,6 +4,8 @@
 From Coq Require Import List String ZArith NArith Bool Permutation.
 Import ListNotations.
 Require Import GenTypes AdaptorModel AdaptorProofs gen.Tables.
+Local Open Scope string_scope.
+Local Open Scope list_scope.
 
 (* ---- obligations over the regenerated tables ---- *)
 (* every visitor<X>::do_visit_each visits each data member of X exactly once and completely *)
